@@ -320,7 +320,9 @@ def run(chk):
            'delimiter is accepted by Message(...) although _split_msh rejects the text it produces' % (
                sorted(covered), missing, '/'.join(missing)), cec.loc, key='C07-R|duplicates|%s' % ','.join(missing))
     ok = any(isinstance(n, ast.Raise) and 'InvalidEncodingChars' in norm(n) for n in own_nodes(cec.node))
-    miss_chk = any(isinstance(n, ast.Assign) and 'required -' in norm(n.value) for n in own_nodes(cec.node))
+    # (under which condition: rule C07-G compares the refusal predicate of check_encoding_chars with the reviewed one)
+    miss_chk = any('required -' in norm(n) or '- required' in norm(n) or 'issubset' in norm(n) or 'required <=' in norm(n)
+                   for n in ast.walk(cec.node) if isinstance(n, (ast.BinOp, ast.Compare, ast.Call)))
     chk.ob('C07-R', 'missing required roles are rejected with InvalidEncodingChars', ok and miss_chk, '', cec.loc, key='C07-R|missing')
     def dup_test(t):
         # len(x) > len(set(x)), len(set(x)) < len(x), len(x) != len(set(x)): x has a repeated character
